@@ -78,6 +78,8 @@ def impl_outcomes(api, reply):
                     e = parse_echo(body)
                     outs.append(app_str(e) if e else "garbled-echo")
                     hints += "1" if any(k == b"content-length" for k, _ in hd) else "0"
+                elif st == 400 and not hd and not body:
+                    outs.append("raw400")
                 else:
                     outs.append(f"status {st}")
             break
